@@ -93,6 +93,11 @@ Theorem C16_lazy_get_complete : forall k d its t b,
   fst (get k d t its) = Some (GOk b).
 Proof. exact lazy_get_complete. Qed.
 
+(** "the bytes on disk": a key in plain form is read from the file with exactly its names *)
+Theorem C16_plain_key_reads_its_file : forall d t,
+  key_ok t -> os_read d t = disk_read d (names (components t)).
+Proof. exact os_read_plain. Qed.
+
 (** what iter (and therefore save's first pass) reports for each kind of cell *)
 Theorem C16_error_entries_are_found : forall k d its t,
   C16_inv k its ->
